@@ -40,7 +40,7 @@ func certificatePrefix(id sdk.Address) []byte {
 }
 
 func certificateSerialFromKey(key []byte) big.Int {
-	if len(key) < keyAddrPrefixLen+1 {
+	if len(key) < keyAddrPrefixLen {
 		panic("invalid key size")
 	}
 
